@@ -743,6 +743,8 @@ def g_num(r, depth, in_pred):
 def g_str(r, depth, in_pred):
     k = r.weighted([("lit", 4), ("string", 3), ("name", 2), ("fn", 4 if depth > 0 else 0)])
     if k == "lit":
+        if r.chance(1, 6):
+            return T("str", "'" + r.choice(WS_STRINGS) + "'")
         if r.chance(1, 8):
             return T("str", r.choice(["$vs", "$ve", "$vw"]))
         if r.chance(1, 4):
@@ -1010,6 +1012,14 @@ def uses_multi_position_pred(text):
         _re.search(r"\[[^\]]*position\(\).*\]\s*\[", text) is not None
 
 
+WS_DOC_TEXTS = ["p\tq", "p\nq", "p\rq", " p q ", "p\t\tq", "\tp", "p\n", "p\u00a0q", "\u00a0", "a\tb c\nd", "\t12\n", "i1\ti2", "p\u2003q"]
+
+
+def xml_text(t):
+    """text content as it must be written in the (ASCII) document: CR, TAB, LF and non-ASCII as character references"""
+    return "".join(c if (32 <= ord(c) < 127 and c not in "<&") else "&#%d;" % ord(c) for c in t)
+
+
 def gen_doc2(r, maxnodes=14):
     """document with comments and processing instructions too"""
     table = [("r", "", "", -1)]
@@ -1042,7 +1052,7 @@ def gen_doc2(r, maxnodes=14):
             av = r.choice(texts).strip() or "v"
             table.append(("a", an, av, me))
             xml += ' %s="%s"' % (an, av)
-        if r.chance(1, 6):
+        if r.chance(1, 3):
             lv = r.choice(["en", "en-US", "EN-gb", "de", "fr-CA", "e"])
             table.append(("a", "xml:lang", lv, me))
             xml += ' xml:lang="%s"' % lv
@@ -1055,9 +1065,9 @@ def gen_doc2(r, maxnodes=14):
             budget[0] -= 1
             w = r.weighted([("t", 4), ("e", 8), ("c", 1), ("p", 1)])
             if w == "t" and not last_text:
-                t = r.choice(texts)
+                t = r.choice(texts) if not r.chance(1, 4) else r.choice(WS_DOC_TEXTS)
                 table.append(("t", "", t, me))
-                kids += t
+                kids += xml_text(t)
                 last_text = True
             elif w == "c":
                 table.append(("c", "", "note", me))
@@ -1111,3 +1121,81 @@ def g_positional_expr(r):
     if fam == 4:      # comparison mixing inner and outer position()/last()
         return "%s[(position() %s count(%s)) or (last() = count(%s) and %s)]" % (outer, r.choice(["=", "<", ">"]), inner(), inner(), sp())
     return "count(%s[%s]/%s) + count(%s)" % (outer, sp(), inner(), "%s[%s and %s]" % (outer, inner(), sp()))
+
+
+# ---------------------------------------------------------------------------------------------
+# white space (XPath 4.2: the XML production S = #x20 | #x9 | #xD | #xA, and nothing else) and context node kinds
+
+WS_STRINGS = [" ", "\t", "\n", "\r", "  ", "\t\t", "\n\n", "\r\r", " \t", "\t\n\r ", "p q", "p\tq", "p\nq", "p\rq", "p  q", "p\t\tq",
+              "p \tq", "p\r\nq", " p", "\tp", "\np", "\rp", "p ", "p\t", "p\n", "p\r", " p\tq", "p\tq ", "p\tq\nr", "a\tb c\nd", "\u00a0",
+              "p\u00a0q", "\u00a0p\u00a0", "p\u2003q", "p\u3000q", "\u2003", "p\u00a0\tq", "\t12\n", "\r7", " 7\t", "\u00a012", "1\t2", "12\u00a0",
+              "\n-3.5\r", "i1\ti2", "i2\ni1", "\ri1", "a\tb\tc"]
+
+
+def q(sv):
+    return "'" + sv + "'"
+
+
+def g_whitespace_expr(r):
+    """string functions over strings with every kind of white space, alone / doubled / mixed / leading / trailing / interior"""
+    a, b = r.choice(WS_STRINGS), r.choice(WS_STRINGS)
+    ws1 = r.choice([" ", "\t", "\n", "\r", "\u00a0", "\u2003"])
+    f = r.below(16)
+    if f == 0:
+        return "normalize-space(%s)" % q(a)
+    if f == 1:
+        return "normalize-space(concat(%s, %s))" % (q(a), q(b))
+    if f == 2:
+        return "string-length(normalize-space(%s))" % q(a)
+    if f == 3:
+        return "translate(%s, %s, %s)" % (q(a), q(ws1 + "p"), q(r.choice(["_", "", " x"])))
+    if f == 4:
+        return "contains(%s, %s)" % (q(a), q(ws1))
+    if f == 5:
+        return "starts-with(%s, %s)" % (q(a), q(ws1))
+    if f == 6:
+        return "substring-before(%s, %s)" % (q(a), q(ws1))
+    if f == 7:
+        return "substring-after(%s, %s)" % (q(a), q(ws1))
+    if f == 8:
+        return "string-length(%s)" % q(a)
+    if f == 9:
+        return "number(%s)" % q(a)
+    if f == 10:
+        return "%s + 1" % q(a)
+    if f == 11:
+        return "count(id(%s))" % q(a)
+    if f == 12:
+        return "normalize-space(%s) = %s" % (q(a), q(b))
+    if f == 13:
+        return "//text()[normalize-space() = normalize-space(%s)]" % q(a)
+    if f == 14:
+        return "count(//text()[normalize-space(.) != normalize-space()])"
+    return "concat('[', normalize-space(//text()[%d]), ']')" % r.range(1, 4)
+
+
+CONTEXT_KIND_SETS = ["//@*", "//text()", "//comment()", "//processing-instruction()", "//*", "/self::node()", "//node()", "//@*/..",
+                     "(//@* | //text())", "//*/@*[1]"]
+CONTEXT_FUNCS = ["lang('en')", "lang('de')", "lang('EN-gb')", "lang('fr')", "name() = local-name()", "name() != ''", "local-name() = 'lang'",
+                 "string-length() > 1", "string-length() = string-length(string())", "normalize-space() = string()", "normalize-space() = normalize-space(.)",
+                 "number() > 1", "number() = number(.)", "string() = .", "count(id(.)) > 0", "count(id(string())) = count(id(.))",
+                 "position() = last()", "last() > 1 and position() = 1", "not(lang('en'))", "name(..) = 'a'", "count(..) = 1",
+                 "count(ancestor::*) > 1", "boolean(parent::*)"]
+
+
+def g_context_kind_expr(r):
+    """every context-dependent function with context nodes of every kind"""
+    s1 = r.choice(CONTEXT_KIND_SETS)
+    f1 = r.choice(CONTEXT_FUNCS)
+    w = r.below(6)
+    if w == 0:
+        return "count(%s[%s])" % (s1, f1)
+    if w == 1:
+        return "%s[%s]" % (s1, f1)
+    if w == 2:
+        return "%s[%s][%s]" % (s1, f1, r.choice(CONTEXT_FUNCS))
+    if w == 3:
+        return "string(%s[%s][1])" % (s1, f1)
+    if w == 4:
+        return "name(%s[%s][last()])" % (s1, f1)
+    return "%s[%s and %s]" % (s1, f1, r.choice(CONTEXT_FUNCS))
